@@ -9,7 +9,7 @@ from .c15 import partitions
 from mirsym.interp import deep_clone, f_cmp
 
 MSGI, MSGS, MSGSM = 'ommx.v1.Instance', 'ommx.v1.State', 'ommx.v1.Samples'
-SAMPLE_IDS = [4, 0, 9]
+SAMPLE_IDS = [4, 0, 9, 2]
 
 
 def build(chk):
@@ -22,7 +22,7 @@ def build(chk):
     B, rd = Build(chk), Rd(chk)
     NMAX = 2 if chk.tier == 'quick' else 3
     chk.bounds = {'instance': 'variables 1 (used), 2 (used, bounded), 5 (irrelevant, bounded) [+ 6 fixed by substituted_value, + dependent 7]; linear objective; 1 active + 1 removed constraint',
-                  'samples': f'1..{NMAX} sample ids (the property quantifies to 8), every partition of the ids into entries, symbolic state values (equal states / equal values are solver cases), '
+                  'samples': f'1..{NMAX} sample ids (the property quantifies to 8), every partition of the ids into entries, plus 4 ids in 4 separate entries, symbolic state values (equal states / equal values are solver cases), '
                   'the irrelevant variable present or omitted per entry'}
     chk.assumptions += ['R-model', 'in-bound states (evaluate rejects out-of-bound states, evaluate_samples does not check bounds: outside this property)',
                         'library models trusted and validated natively each run']
@@ -156,6 +156,57 @@ def build(chk):
                     chk.harness(f'evaluate_samples:{n}-samples/{variant}/partition{pi}', mk(n, variant, pi), regions=[], hash_order='canonical')
                 continue
             chk.harness(f'evaluate_samples:{n}-samples/{variant}', mk(n, variant), regions=regs, hash_order='all' if (n == 1 and variant == 'plain') else 'canonical')
+    # four samples stored in four separate entries with symbolic states (two different pairs of equal states, A,A,B,B and the like, are
+    # solver cases) on a minimal instance (one variable, objective x1, no constraints), so the value tables have one equality pattern per state pattern
+    def h_four(P):
+        ids = SAMPLE_IDS[:4]
+        spec = Inst(sense=MINIMIZE, objective=(chk.M.function('Linear', chk.M.linear([(1, ONE)], ZERO)), SymFn([([1], ONE)])), vars=[Var(1, 3)], cons=[], removed=[])
+        inst = B.instance(spec)
+        xs = [P.real(f'x1_{e}') for e in range(4)]
+        states = [[(1, x)] for x in xs]
+        samples = eng.struct('v1::Samples', entries=RVec([eng.struct('v1::samples::SamplesEntry', state=Some(B.state(st)), ids=RVec([i])) for st, i in zip(states, ids)]))
+        P.cover('two-pairs-of-equal-states', z3.And(xs[0].r == xs[1].r, xs[2].r == xs[3].r, xs[0].r != xs[2].r))
+
+        def witness(model):
+            idict = chk.conv.to_dict(B.instance(spec), MSGI, model)
+            smd = {'entries': [{'state': {'entries': [(k, valconv.fv_to_float(v, model)) for k, v in st]}, 'ids': [i]} for st, i in zip(states, ids)]}
+            case = {'op': 'evaluate_samples', 'instance': chk.hexdict(idict, MSGI), 'samples': chk.hexdict(smd, MSGSM), 'get': ids}
+            exps = {i: c05.concrete_expected(idict, [e for e in smd['entries'] if i in e['ids']][0]['state']) for i in ids}
+
+            def judge(res):
+                if 'ok' not in res:
+                    return True
+                if sorted(res['ok'].get('sample_ids', ids)) != sorted(ids):
+                    return True
+                for i in ids:
+                    g = res['ok']['get'][str(i)]
+                    if 'ok' not in g or not c05.solution_matches(chk.unhex(g['ok'], 'ommx.v1.Solution'), exps[i]):
+                        return True
+                return False
+            return case, judge, f'evaluate_samples({smd}) on a one-variable instance vs per-sample evaluate'
+        try:
+            res = P.it.run_body(evs, [ref_to(inst), ref_to(samples)])
+        except RustPanic:
+            P.fail('no-panic', witness)
+            return
+        if res.vname != 'Ok':
+            P.fail('evaluate_samples-ok', witness)
+            return
+        ss = res.f[0].f[0]
+        for i, x in zip(ids, xs):
+            try:
+                g = P.it.run_body(get, [ref_to(ss), i])
+            except RustPanic:
+                P.fail('get-no-panic', witness)
+                return
+            if g.vname != 'Ok':
+                P.fail('get-ok', witness)
+                return
+            sol = rd.solution(g.f[0])
+            rep = dict(sol['state'] or [])
+            if not P.require('sample-equals-single-evaluation', b_and(feq(sol['objective'], x), sorted(rep) == [1], feq(rep.get(1, x), x)), witness):
+                return
+    chk.harness('evaluate_samples:4-samples/four-entries/minimal-instance', h_four, regions=['two-pairs-of-equal-states'], hash_order='canonical')
     chk.validation('evaluate_samples', lambda c: validate(c, evs, get))
 
 
